@@ -28,14 +28,21 @@ LEVEL_TEXT = ('The writer (`_smiles`: start choice, BFS distances, DFS with cycl
               'same molecule" that are pure logic are universally quantified theorems about that model: the text lexes back to the '
               'emitted tokens, the reader raises no error on it, its chain bonds are the DFS tree bonds, its ring-closure bonds are '
               'the two ends of each DFS cycle (number reuse never mispairs), parentheses balance, the allocator fails exactly when '
-              'more than 99 numbers are needed at once, and injectivity follows from losslessness. That the DFS covers every bond '
-              'once, and everything about stereo configuration, is not proved for all graphs: it is certified run by run by '
-              'Lean-executed checkers and by re-reading the text with the reader model of C03 (Lean judge incl. stereo) and with '
-              'the real reader (Python judge under the written atom order, no canonicaliser).')
+              'more than 99 numbers are needed at once, and injectivity follows from losslessness. Since round 5 the DFS itself is '
+              'proved for ALL well-formed molecules (decidable Mol.WF, evaluated on every case): the stack machine visits exactly the '
+              'component, every atom is written once in discovery order, every bond is recorded exactly once (tree bond or one '
+              'closure pair), no fuel bound of the model is ever reached, and hence the written body lexes and a positional reader '
+              '(readL, compared with the real smiles(text) on every sampled case) reads back exactly the atoms and the bond set of the '
+              'molecule under the written order; equal token lists force equal elements, isotope labels, charges, bracket H counts '
+              'and bond sets. The DFS locals of the real frame (start, discovery order, tree, closure bonds) are compared with the '
+              'model per round. NOT proved for all graphs: the bond symbols read back and everything about stereo configuration; '
+              'these are certified run by run by Lean-executed checkers and by re-reading the text with the reader model of C03 '
+              '(Lean judge incl. stereo) and with the real reader (Python judge under the written atom order, no canonicaliser; '
+              'for nested dependent stereo units additionally an own permutation-parity judge).')
 LEVEL_NOTE = ('Lean kernel; hand transcription Model/SmilesWriter.lean validated by exact correspondence (not derived from the Python '
               'text); atom weights, CPython set iteration orders and random draws are inputs of the model taken from the real run; '
               'reader model of C03 and translation functions of C12 (Model/Stereo.lean) imported; the stereogenic-centre tables are inputs.')
-TECHNIQUE = 'Lean 4 executable writer model + round-trip/closure/lexer theorems + exact correspondence + Lean-side structural checkers + re-read judged under the written order'
+TECHNIQUE = 'Lean 4 executable writer model + DFS-invariant/round-trip/closure/lexer theorems for all well-formed graphs + exact correspondence (text, tokens, DFS locals, positional re-read) + Lean-side structural checkers + re-read judged under the written order'
 HAS_DRIVER = True
 EXTRA_MODULES = []
 FINDINGS_MODULE = 'ChythonModel.Findings.C02'
@@ -43,16 +50,20 @@ RULE = ('K case = (style, molecule in one concrete numbering/insertion order[, s
         'hand-made set, exhaustive small graphs with random decoration, ring assemblies, each also renumbered with shuffled '
         'insertion order, and closure-heavy hub/cage graphs; styles: "", a, A, m, h, !b, !z, !s, r, !x and combinations. '
         'Non-trivial = at least one bond; distinct by (op, style, wire form, draws). R case = (molecule, style) re-read and judged; '
-        'injectivity case = pair of non-isomorphic decorated graphs / stereoisomers with their canonical strings.')
+        'injectivity case = pair of non-isomorphic decorated graphs / stereoisomers with their canonical strings. '
+        'D case = (molecule, style) whose real DFS locals are compared; L case = written text read positionally by the model vs the real reader; '
+        'N case = molecule with nested dependent stereo units (depth 2-5, built through the labelling API) x style/order, plus its epimer.')
 TRUSTED = ['hand transcription Model/SmilesWriter.lean, Model/C02RoundTrip.lean (validated by this correspondence)',
            'reader model of C03 (Model/C03Tokenize, C03Parser, C03Front), validated by the C03 check',
            'gen_c02 translator (module tables read from the imported module, heap initialiser evaluated from the AST, _format_closure fitted by calling it)',
            'the harness-side replication of CPython set iteration orders (same objects, same operations)',
-           'Python-side isomorphism judge under the written order (harness/props/c02.py: judge)']
+           'Python-side isomorphism judge under the written order (harness/props/c02.py: judge, own_stereo_diffs)',
+           'sys.settrace hook reading the locals of the real _smiles frame after its DFS loop (located by its source text)']
 ASSUMPTIONS = ['atom weights (atoms_order/_chiral_morgan) are inputs: their numbering-independence is property C01',
                'iteration of a Python set yields every element exactly once (order supplied from the real run)',
                'molecules carry a defined implicit hydrogen count on every atom (valence-valid); others are reported separately, not judged',
-               'stored labels (hybridization) are those of calc_labels']
+               'stored labels (hybridization) are those of calc_labels',
+               'the molecule graph is well formed (Mol.WF: symmetric adjacency, no self loops, unique ids) — checked on every wire molecule']
 
 SPECS = ['', 'a', 'A', 'm', 'h', '!b', '!z', '!s', 'r', '!x', 'ah', 'Am', 'r!s', 'rA', 'ram', 'hm!s', 'aA!s', 'rh']
 LOSSLESS = lambda spec: '!b' not in spec and '!z' not in spec  # noqa: E731  styles the property lists as lossless
